@@ -97,6 +97,15 @@ Definition run_tc (op : Z) (a : args) : args :=
               do sp <- tc_to_space_packet_pack u;
               do p <- tc_pack u;
               Ok [sp; fst p; [tc_packet_len u]])
+  (* decode from a buffer that may continue behind the packet, then every observable of the decoded object:
+     fields incl. crc16 and packet_len, pack(recalc_crc=False), pack(), == with the telecommand decoded from exactly
+     the packet's own octets (both directions), the fields again *)
+  | 513 => ret (fun x => x)
+             (do u <- tc_unpack (lst 0 a);
+              do p1 <- tc_pack_norecalc u;
+              do p2 <- tc_pack (snd p1);
+              do w <- tc_unpack (slice_to (lst 0 a) (tc_packet_len u));
+              Ok (tc_fields u ++ [fst p1; fst p2; [b2z (tc_eqb u w); b2z (tc_eqb w u)]] ++ tc_fields (snd p2)))
   (* extended history: construction path + parameters in list 0, data in list 1, operations in
      lists 2..; every operation leaves its observation; closing sequence of views and packs; the
      last list: number of caller-owned buffers the library changed, number of octet strings the library
